@@ -117,13 +117,22 @@ def k_sp800_108(prfname, mlen, key_len, num_keys, llen, clen):
 
 
 def k_sp800_108_nul(where):
-    """label and context 'must not contain zero bytes' (library documentation; the 0x00 separator would become ambiguous)"""
+    """a zero byte in the CONTEXT is refused (ValueError); a zero byte in the LABEL is accepted and the output is the spec stream
+    for that label (the library's own test SP800_108_Counter_Tests.test_negative_zeroes fixes this behaviour; the encoding
+    Label || 0x00 || Context stays injective because the context is NUL-free)"""
     from Crypto.Protocol.KDF import SP800_108_Counter
     from Crypto.Hash import HMAC, SHA256
+    from spec import ref_kdf
     prf = lambda k, m: HMAC.new(k, m, SHA256).digest()        # noqa
-    kw = {'label': b'lab\x00el'} if where == 'label' else {'context': b'con\x00text'}
+    if where == 'label':
+        ref = lambda m: pyhmac.new(bytes(32), m, 'sha256').digest()       # noqa
+        exp = ref_kdf.sp800_108_counter(ref, b'lab\x00el', b'', 16)
+        try:
+            return exp, SP800_108_Counter(bytes(32), 16, prf, label=b'lab\x00el')
+        except ValueError:
+            return exp, 'ValueError'
     try:
-        SP800_108_Counter(bytes(32), 16, prf, **kw)
+        SP800_108_Counter(bytes(32), 16, prf, context=b'con\x00text')
         return 'ValueError', 'accepted'
     except ValueError:
         return 'ValueError', 'ValueError'
@@ -270,10 +279,12 @@ def t_misc(rec, rnd, tier):
             for nk in (None, 1, 2, 5):
                 rec.case(c, 'sp800_108', prfname=prf, mlen=16 if prf == 'CMAC-AES' else rnd.choice([1, 16, 32, 100]), key_len=kl, num_keys=nk,
                          llen=rnd.choice([0, 1, 10, 100]), clen=rnd.choice([0, 1, 10, 100]))
-    for where in ('context', 'label'):
-        c = rec.declare('SP800_108_Counter.nul_in_%s_refused' % where, 'a zero byte in the %s is refused with ValueError (the library documents "It must not contain zero bytes" for label and context; the 0x00 separator is otherwise ambiguous)' % where,
-                        '1 case', 'lib/Crypto/Protocol/KDF.py:SP800_108_Counter')
-        rec.case(c, 'sp800_108_nul', where=where)
+    c = rec.declare('SP800_108_Counter.nul_in_context_refused', 'a zero byte in the context is refused with ValueError (it would make the 0x00 separator ambiguous)',
+                    '1 case', 'lib/Crypto/Protocol/KDF.py:SP800_108_Counter')
+    rec.case(c, 'sp800_108_nul', where='context')
+    c = rec.declare('SP800_108_Counter.nul_in_label_accepted', 'a zero byte in the label is accepted (library test test_negative_zeroes) and the output equals the spec stream for that label '
+                    '(Label || 0x00 || Context stays injective because the context is NUL-free)', '1 case', 'lib/Crypto/Protocol/KDF.py:SP800_108_Counter')
+    rec.case(c, 'sp800_108_nul', where='label')
     c = rec.declare('bcrypt.published_vectors', 'bcrypt(password, cost, salt) == published $2a$ hash; bcrypt_check accepts it and refuses another password',
                     '%d Openwall crypt_blowfish vectors (incl. 72-byte password, 8-bit characters, empty password)' % len(BCRYPT_VECTORS), 'src/blowfish_eks.c + lib/Crypto/Protocol/KDF.py:bcrypt')
     for i in range(len(BCRYPT_VECTORS)):
